@@ -13,12 +13,14 @@ RULE = ("exhaustive walk of the decoder's own decision tree (a node is expanded 
         "(3 encodings) and x every table sequence; scalar values: boundaries + 20k seeded sample (thorough: all "
         "1 112 064) followed by 6 different continuations; seeded streams of recognised sequences and characters "
         "and of arbitrary bytes under every encoding and mode, each also through the real find_key closure of "
-        "Input._send; 9 sequences longer than MAX_KEYPRESS_SIZE; single bursts longer than READ_SIZE through the real "
+        "Input._send; the other spellings of the three codecs (aliases, case/underscore variants, ANSI_X3.4-1968) on every "
+        "single byte and the children of waiting bytes; 9 sequences longer than MAX_KEYPRESS_SIZE (representation level); single bursts longer than READ_SIZE through the real "
         "Input object (default paste threshold) with every multi-byte table sequence that is not a prefix and 7 "
         "multi-byte characters at every alignment across offsets READ_SIZE and 2*READ_SIZE. non-trivial = distinct (operation, encoding, mode, full, bytes) with at least 2 bytes or a "
         "non-ASCII byte")
 ASSUMPTIONS = ["bytes objects hold values < 256 (the model's List Nat is used on such values only)",
-               "encodings are the three the property names: utf-8, ascii, latin-1",
+               "encodings are the three the property names: utf-8, ascii, latin-1 - under EVERY spelling CPython resolves to "
+               "those codecs (the model is per codec; Input passes whatever locale.getpreferredencoding() reports)",
                "under utf-8 a single-byte 8-bit Meta key whose value is a UTF-8 lead byte (RFC 3629: C2..F4) counts as "
                "recognised only when it ends a read (property text); every other one-byte key is recognised anywhere - for "
                "C0, C1, F5..FD the code disagrees (known finding D43)",
@@ -405,6 +407,55 @@ def burst_items(ctx):
     return items
 
 
+def outcome(fn):
+    try:
+        return ("ok", fn())
+    except kc.FindFailure as f:
+        return ("raises", type(f.exc).__name__)
+    except Exception as e:  # noqa: BLE001
+        return ("raises", type(e).__name__)
+
+
+ALIAS_STREAMS = [b"\xe9ab", b"\xffa\x1b[A", b"\x80", b"a\xc3\xa9b", b"\x1b[15~\xa0x", b"\xc3", b"\xe2\x82\xac!", b"\x9bA", b"ab\xfe\xff"]
+
+
+def alias_work(a):
+    """the decoder under another spelling of the same codec: every single byte, the children of the waiting ones
+    over the boundary alphabet, a few short streams.  -> (tie cases, [(what, case)])"""
+    fam, alias, thorough = a
+    cases, bad = [], []
+    modes = tuple(MODES) if thorough else ("curtsies",)
+    nodes = [(b,) for b in range(256)]
+    nodes += [(b, c) for b in range(256) if kc.waits((b,), fam) or kc.waits((b,), alias) for c in kc.ALPHA18]
+    for n in nodes:
+        for full in (0, 1):
+            for mode in modes:
+                cases.append(("getkey-alias", fam, alias, mode, full, hx(n)))
+            x = outcome(lambda: kc.real_get_key(n, alias, "curtsies", bool(full)))
+            y = outcome(lambda: kc.real_get_key(n, fam, "curtsies", bool(full)))
+            if x != y:
+                bad.append(("under the spelling %r of encoding %s get_key answers %r, under %r it answers %r"
+                            % (alias, ENCS[fam], x, ENCS[fam], y), ("getkey-alias", fam, alias, "curtsies", full, hx(n))))
+    for st in ALIAS_STREAMS:
+        cases.append(("segment-alias", fam, alias, "curtsies", 0, hx(st)))
+        x = outcome(lambda: kc.segment(st, alias, "curtsies"))
+        y = outcome(lambda: kc.segment(st, fam, "curtsies"))
+        if x != y:
+            bad.append(("under the spelling %r of encoding %s the stream is decoded as %r, under %r as %r"
+                        % (alias, ENCS[fam], x, ENCS[fam], y), ("segment-alias", fam, alias, "curtsies", 0, hx(st))))
+    return cases, bad
+
+
+def alias_line(c):
+    op, fam, alias, mode, full, h = c
+    return line((op.split("-")[0], fam, mode, full, h))
+
+
+def alias_impl(c):
+    op, fam, alias, mode, full, h = c
+    return impl((op.split("-")[0], alias, mode, full, h))
+
+
 def report(ctx, bads, case):
     for what, fp in bads:
         ctx.violation(what, case, fp)
@@ -441,6 +492,8 @@ def w_stream(a):
 def w_e2e(a):
     enc, buf, mode = a
     real = kc.e2e_segment(buf, enc, mode)
+    if real == kc.UNAVAILABLE:
+        return kc.UNAVAILABLE
     try:
         mine = [(k, len(c)) for k, c in kc.segment(buf, enc, mode)]
     except kc.FindFailure as f:
@@ -491,12 +544,43 @@ def check(ctx, search=False):
             if op == "decodable":
                 return "ok %d" % ev.decodable(x, ENCS[enc])
             return "ok %d" % ev.could_be_unfinished_char(x, ENCS[enc])
-        ctx.tie("C03/utf8-spec-and-predicates", spec, lambda c: "%s %s %s" % c, spec_impl)
+        fmt = lambda c: "%s %s %s" % c
+        # Spec/Utf8 against CPython's codecs: does not involve /repo
+        ctx.tie("C03/utf8-spec-vs-cpython", [c for c in spec if c[0] == "decode"], fmt, spec_impl, impl=False)
+        # the two helper predicates in isolation: stricter than the property (get_key's answers are tied above) and
+        # dependent on module-level helpers a refactor may inline - representation level, skipped when they are gone
+        if callable(getattr(ev, "decodable", None)) and callable(getattr(ev, "could_be_unfinished_char", None)):
+            ctx.tie("C03/predicates", [c for c in spec if c[0] != "decode"], fmt, spec_impl, level="representation")
+        else:
+            ctx.note("events.decodable / could_be_unfinished_char no longer exist: observed through get_key only")
         for c in spec[::50]:
             ctx.count(c, nontrivial=True, tag="spec-" + c[0])
         ctx.exhaustive.append("bytes.decode / decodable / could_be_unfinished_char against Spec/Utf8 + model: all 1- and 2-byte "
                               "strings and %d structured 3/4-byte boundaries under utf-8, samples under ascii/latin-1: %d lines"
                               % (len(strs) - 65792, len(spec)))
+    # ---- tie 1a: every other spelling of the three codecs (Input passes locale.getpreferredencoding()) -----------------
+    spell = kc.alias_spellings()
+    if not ctx.thorough:
+        keep = {"ANSI_X3.4-1968", "646", "us", "U8", "cp65001", "utf_8", "UTF-8", "L1", "ISO-8859-1", "iso_8859_1", "ASCII", "LATIN1"}
+        rest = [x for x in spell if x[1] not in keep]
+        spell = [x for x in spell if x[1] in keep] + rest[ctx.rng.randrange(4)::4]
+    work = [(fam, alias, ctx.thorough) for fam, alias in spell]
+    acases = []
+    for (fam, alias, _), (cs, bad) in zip(work, kc.par_map(alias_work, work, procs, chunksize=1)):
+        acases += cs
+        for what, case in bad:
+            ctx.violation(what, case, None)
+    if not search:
+        for lo in range(0, len(acases), 250000):
+            chunk = acases[lo:lo + 250000]
+            it = iter(kc.par_map(alias_impl, chunk, procs))
+            ctx.tie("C03/encoding-aliases", chunk, alias_line, lambda c: next(it))
+    for c in acases:
+        ctx.count(c, nontrivial=nontriv(c[5]), tag="alias-" + c[1])
+    ctx.exhaustive.append("encoding spellings: %d of the %d names CPython resolves to ascii / utf-8 / latin-1 (aliases of "
+                          "encodings.aliases, case and hyphen/underscore variants, the C-locale name ANSI_X3.4-1968): every single "
+                          "byte x full, children of waiting bytes over 18 boundary bytes, 9 short streams; compared with the "
+                          "canonical spelling on the real code and with the model of the codec" % (len(spell), len(kc.alias_spellings())))
     # ---- tie 1b: sequences longer than MAX_KEYPRESS_SIZE (get_key's ValueError guard) ---------------------------
     M = ev.MAX_KEYPRESS_SIZE
     longs = [b"a" * (M + 1), b"a" * (M + 2), b"\x1b[1;10" + b"A" * (M - 5), b"\x1b" * (M + 1), b"\xe2\x82\xac" * 3,
@@ -504,7 +588,8 @@ def check(ctx, search=False):
     assert all(len(x) > M for x in longs)
     cases = [("getkey", enc, mode, full, hx(x)) for x in longs for enc in ENCS for mode in MODES for full in (0, 1)]
     if not search:
-        ctx.tie("C03/getkey-too-long", cases, line, impl)
+        # outside the quantifier ("up to the maximum keypress length"): representation level
+        ctx.tie("C03/getkey-too-long", cases, line, impl, level="representation")
     for c in cases:
         ctx.count(c, nontrivial=True, tag="getkey-longer-than-max")
     # ---- tie 2 + table oracle: every table sequence alone / x every next byte / x table sequences ------------
@@ -575,10 +660,14 @@ def check(ctx, search=False):
     # ---- the transcribed find_key loop against the real closure inside Input._send ---------------------------
     items = [(enc, b"".join(units), mode) for enc, units, kind in streams for mode in MODES]
     res = kc.par_map(w_e2e, items, procs, chunksize=100)
+    if any(d == kc.UNAVAILABLE for d in res):
+        ctx.note("Input no longer keeps pending bytes in a list attribute `unprocessed_bytes`: the direct drive of its find_key "
+                 "closure is skipped; the burst family below observes the same loop through the public interface only")
+        res = [None if d == kc.UNAVAILABLE else d for d in res]
     bad = [(it, d) for it, d in zip(items, res) if d]
     for it, d in bad[:3]:
         ctx.disagreements.append(("C03/e2e-find_key", ("segment", it[0], it[2], 0, hx(it[1])), d[0], d[1]))
-    ctx.ties["C03/e2e-find_key"] = dict(compared=len(items), disagreements=len(bad))
+    ctx.ties["C03/e2e-find_key"] = dict(compared=len(items), disagreements=len(bad), involves_impl=True, level="property")
     # ---- bursts longer than READ_SIZE through the REAL Input object (select / os.read / paste loop / find_key) -----
     items = burst_items(ctx)
     nop = [(e, None, b, k, u) for (e, _, b, k, u) in items[::4]]
@@ -619,6 +708,10 @@ def search(ctx):
 
 def replay(payload):
     c = payload["case"]
+    if c[0] in ("getkey-alias", "segment-alias"):
+        op, fam, alias, mode, full, h = c
+        base = op.split("-")[0]
+        return dict(case=c, under_alias=impl((base, alias, mode, full, h)), under_canonical_name=impl((base, fam, mode, full, h)))
     if c[0] == "burst":
         _, enc, pt, boundary, k, h = c
         pt = None if pt == "None" else pt
